@@ -566,34 +566,31 @@ def run_scenario(sc: dict, drv: common.Driver | None) -> dict:
         if model and not res['disagreement']:
             for a in NAMES:
                 key = rig.real_name(a)
-                real_s = [s for s in rig.sessions.get(key or '', []) if s.events]
+                # sessions that reached the main loop (one that found a teardown pending ends before it)
+                real_s = [s for s in rig.sessions.get(key or '', []) if s.iterations > 0]
                 real = [s.events for s in real_s]
-                mod = [s for s in model.sessions.get(a, []) if s]
+                mod = list(model.sessions.get(a, []))
                 if len(real_s) == len(mod):
                     # M-Rib does not model that a family the SESSION did not negotiate is not transmitted
                     # (reachable here only when a failed reload re-attached the RIB with other families)
                     mod = [[e for e in evs if e[2] in s.fams] for evs, s in zip(mod, real_s)]
-                    mod = [m for m in mod if m]
-                    real = [r for r in real if r]
                 # a session cut by a teardown: which of the events still queued made it out before the
                 # NOTIFICATION is not modelled (the model drops them at `lost`; the peer's table is reset
                 # anyway).  Earlier sessions: what the model sent must be a prefix of what was sent, per
-                # prefix (settled mode) — or nothing is compared (burst / inflight); the session that is
-                # up at the end is compared exactly.
+                # prefix (settled mode) — or nothing is compared (burst / inflight / midloop); the session
+                # that is up at the end is compared exactly.
                 p_end = rig.peer(a)
                 alive = p_end is not None and p_end.established()
                 bad_events = False
-                if len(real) != len(mod) and mode == 'settled':
+                if len(real) != len(mod):
                     bad_events = True
-                elif mode == 'settled':
+                else:
                     for i, (x, y) in enumerate(zip(real, mod)):
                         px, py = per_nlri(x), per_nlri(y)
                         if i == len(real) - 1 and alive:
                             bad_events |= px != py
-                        else:
+                        elif mode == 'settled':
                             bad_events |= any(px.get(n, [])[: len(q)] != q for n, q in py.items())
-                elif alive:
-                    bad_events = per_nlri(real[-1] if real else []) != per_nlri(mod[-1] if mod else [])
                 if bad_events:
                     res['disagreement'] = f'wire events of neighbor {a}: impl {real} model {mod}'
                     break
